@@ -24,7 +24,10 @@ class StdLib:
     OPAQUE_RE = re.compile(r"std::(__cxx11::)?(basic_string<|map<|vector<|basic_stringstream<|basic_ostream<|basic_ostringstream<|set<|list<|unordered_map<|_Rb_tree_iterator<|_Rb_tree_const_iterator<|pair<)")
 
     def is_opaque(self, canon):
-        return bool(self.tr.opts.get("opaque_std")) and bool(self.OPAQUE_RE.match(canon))
+        if not self.tr.opts.get("opaque_std"):
+            return False
+        extra = self.tr.opts.get("opaque_extra")
+        return bool(self.OPAQUE_RE.match(canon)) or bool(extra and re.match(extra, canon))
 
     def opaque_value(self, ty):
         """nondeterministic value of C++ type ty (used for results of opaque std operations)"""
@@ -788,22 +791,41 @@ static %(T)s *%(name)s(%(T)s *first, %(T)s *last, %(CL)s pred)
 }
 """ % dict(T=T, name=name, CL=CL, L1=L(1), Ef=E("first"))
         elif base == "stable_partition":
+            # index-based reference model, instrumented with ghost bookkeeping: where the entries at the ghost positions
+            # verif_gi/gj went (verif_sp_dest_*), where the entries now at verif_gi/gj came from (verif_sp_src_*), how many
+            # were kept (verif_sp_kept); verif_s_* are entry snapshots for the unit's loop contracts
             body = """
 static %(T)s *%(name)s(%(T)s *first, %(T)s *last, %(CL)s pred)
 {
-  unsigned long n = first == last ? 0ul : (unsigned long)(last - first), r = 0, k;
-  %(T)s *tmp = n ? (%(T)s *)verif_malloc(n * sizeof(%(T)s)) : 0;
-  %(T)s *w = first;
-  for (%(T)s *p = first; p != last; ++p)
+  unsigned long n = first == last ? 0ul : (unsigned long)(last - first), r = 0, k, kw = 0, i;
+  if (n == 0) { verif_sp_kept = 0; return first; }
+  %(T)s *tmp = (%(T)s *)verif_malloc(n * sizeof(%(T)s));
+  %(T)s verif_s_gi = verif_gi < n ? first[verif_gi] : (%(T)s){0}, verif_s_gj = verif_gj < n ? first[verif_gj] : (%(T)s){0};
+  %(T)s verif_s_hi = verif_hi < n ? first[verif_hi] : (%(T)s){0}, verif_s_hj = verif_hj < n ? first[verif_hj] : (%(T)s){0};
+  for (i = 0; i < n; ++i)
 %(L1)s
-  { if (%(Ep)s) { *w = *p; ++w; } else { tmp[r] = *p; ++r; } }
-  for (k = 0; k < r; ++k)
+  {
+    if (%(Ei)s)
+    {
+      if (i == verif_gi) verif_sp_dest_i = kw;
+      if (i == verif_gj) verif_sp_dest_j = kw;
+      if (kw == verif_gi) verif_sp_src_i = i;
+      if (kw == verif_gj) verif_sp_src_j = i;
+      first[kw] = first[i]; ++kw;
+    }
+    else { tmp[r] = first[i]; ++r; }
+  }
+  verif_sp_kept = kw;
+  if (r)
+  {
+    for (k = 0; k < r; ++k)
 %(L2)s
-  { w[k] = tmp[k]; }
-  if (tmp) free(tmp);
-  return w;
+    { first[kw + k] = tmp[k]; }
+  }
+  free(tmp);
+  return first + kw;
 }
-""" % dict(T=T, name=name, CL=CL, L1=L(1), L2=L(2), Ep=E("p"))
+""" % dict(T=T, name=name, CL=CL, L1=L(1), L2=L(2), Ei=E("first + i"))
         else:
             body = """
 static %(T)s *%(name)s(%(T)s *first, %(T)s *last, %(CL)s pred)
